@@ -37,7 +37,21 @@ INFO = {
         'not_decided': ['the interleaving argument itself (two-line invariant on paper: send_next = number of attempted sends)',
                         'liveness under an unfair scheduler (spin wait)', 'memory-model facts beyond "ordering is not Relaxed"'],
     },
-    'C06': {'decides': '', 'not_decided': []},
+    'C06': {
+        'decides': 'ownership (no Clone bound, no item drop), non-empty batches, limit test (strict >, update before push, remainder = '
+                   'rejected item), BatchLimit tables, nothing stranded (None only on empty buffer, remainder pushed back, plain refill '
+                   'order), seeded rng only, stable sort by size, progress of the fill loop, sub-sequence choice and splice',
+        'not_decided': ['that a sorted+shuffled sub-sequence satisfies the limit as a value fact (delegated to the size function whose '
+                        'shape is checked)', 'partition as a value statement'],
+    },
+    'C08': {
+        'decides': 'adaptor order and arguments of init_iter (global enumerate before take/skip/step_by), seed derivation (epoch seed, '
+                   'item seed = seed + global index), absolute setters and designated writers of the offsets, no ambient nondeterminism '
+                   'source and no hash-order leak in the per-item code, rngs seeded from info.seed, no interior-mutable state in per-item '
+                   'closures; C05/C06-5 prerequisites re-evaluated',
+        'not_decided': ['equality of two runs as a value statement', 'fast_forward semantics for k not a multiple of the world size is as coded',
+                        'determinism of third-party code (regex, unicode tables, rand distributions) is assumed'],
+    },
     'C07': {
         'decides': 'termination shape of the interleaved scan (continues only after observing finished[c]; +1 mod n; precondition '
                    '!all_finished), mark-before-reselect, None only under all_finished, tagging before re-selection, single puller, '
